@@ -186,6 +186,9 @@ pub struct PipeDef {
     pub preclosed:  bool,
     /// Use a futures::channel::mpsc receiver as the input instead of the scripted stream
     pub mpsc:       bool,
+    /// The scripted stream stores the waker before it looks at its state (like AtomicWaker users do), so it still holds a
+    /// waker when it reports an item or the end
+    pub register_first: bool,
 }
 
 #[derive(Clone, Debug)]
@@ -309,7 +312,7 @@ impl Program {
         for p in &self.pipes {
             j.obj();
             j.kv_num("obj", p.obj).kv_bool("through", p.through).kv_num("depth", p.depth).kv_num("items", p.items.len())
-                .kv_num("preloaded", p.preloaded).kv_bool("preclosed", p.preclosed).kv_bool("mpsc", p.mpsc);
+                .kv_num("preloaded", p.preloaded).kv_bool("preclosed", p.preclosed).kv_bool("mpsc", p.mpsc).kv_bool("register_first", p.register_first);
             j.end_obj();
         }
         j.end_arr();
